@@ -556,4 +556,13 @@ def replay(cfg: kaisa.Config, hist: list[dict[str, Any]], seed: int,
     W = cfg.gpt['D'] * cfg.gpt['M']
     out['step_grads'] = {r: [o['grads'] for o in ex['recs'][r] if 'grads' in o]
                          for r in range(W)}
+    # case record for spec/GptDist.tla (only for executions that completed)
+    out['kcase'] = None
+    if not any(ex['errors']) and all(len(ex['recs'][r]) == len(hist)
+                                     for r in range(W)):
+        from harness import gptdist
+        try:
+            out['kcase'] = gptdist.build_case(cfg, hist, ex)
+        except Exception as e:  # noqa: BLE001
+            out['kcase_error'] = f'{type(e).__name__}: {e}'[:200]
     return out
